@@ -853,6 +853,7 @@ fn exec_with_proto(sc: &Scen, proto_on: bool) {
 
 pub fn run_worker(spec: &E2Spec, w: usize, n: usize) -> WorkerOut {
     let mut out = WorkerOut::default();
+    let worker_start = std::time::Instant::now();
     #[cfg(feature = "hooks")]
     let proto_on = spec.id == "C19";
     #[cfg(feature = "hooks")]
@@ -868,10 +869,18 @@ pub fn run_worker(spec: &E2Spec, w: usize, n: usize) -> WorkerOut {
             );
         }
         let sc2 = sc.clone();
+        // per-scenario cap, and a total budget per worker (5 x the scenario cap): what does not
+        // fit is reported as a cap hit, never silently dropped
+        let left = (spec.cap_s * 5).saturating_sub(worker_start.elapsed().as_secs());
+        if left == 0 {
+            out.stats.cap_hit = true;
+            out.stats.bump("scenarios_not_started_within_the_time_budget", 1);
+            continue;
+        }
         let cfg = Config {
             bound: sc.bound,
             partition: Some((w, n)),
-            time_cap: Some(Duration::from_secs(spec.cap_s)),
+            time_cap: Some(Duration::from_secs(spec.cap_s.min(left))),
             ..Config::default()
         };
         let nontrivial_before = out.stats.counters.get("nontrivial_schedules").copied().unwrap_or(0);
